@@ -16,6 +16,10 @@ CHECKS = {
                   "covers": ["done", "append-set", "reopen", "two-headers"], "targets": ["Message).Encode", "SerializedMessage).Headers", "commitLog).AppendMessageSet"]},
                  {"name": "VerifC01IndexGrowth", "quick": {"batches": 2}, "thorough": {"batches": 3}, "max-paths": 1000000,
                   "covers": ["done", "grown", "batch-straddles-the-mapped-end"], "targets": ["index).writeAt", "index).writeEntries", "index).InitializePosition", "indexScanner).Scan"]},
+                 # a committed reader that was parked (beyond the HW / on an empty log) and is woken by a HW that
+                 # jumps across segment rolls: the C03 harness, also run here (readers "committed or uncommitted")
+                 {"name": "VerifC03Wakeup", "quick": {"msgs": 3}, "thorough": {"msgs": 4},
+                  "covers": ["done", "parked-after-reading"], "targets": ["committedReader).Read", "commitLog).notifyHWChange"]},
                  {"name": "VerifC01LiveReader", "quick": {"msgs": 3}, "thorough": {"msgs": 4},
                   "covers": ["done", "truncate-above-reader", "append-after-reader"], "targets": ["commitLog).Truncate"]},
              ]},
@@ -147,7 +151,7 @@ CHECKS = {
             {"pkg": "./server", "overlay": "server", "pkgname": "server",
              "harnesses": [
                  {"name": "VerifC07Failover", "quick": {"events": 3, "stalekinds": 2}, "thorough": {"events": 4, "stalekinds": 2}, "replay": "interpreted", "max-paths": 3000000,
-                  "covers": ["done", "report", "shrink", "expand", "expiry", "lost-leadership", "election", "ineligible-refused"],
+                  "covers": ["done", "report", "shrink", "expand", "expiry", "lost-leadership", "election", "ineligible-refused", "prior-election"],
                   "targets": ["metadataAPI).ReportLeader", "metadataAPI).ShrinkISR", "metadataAPI).ExpandISR", "failoverStatus).report", "metadataAPI).electNewPartitionLeader", "metadataAPI).selectPartitionLeader"]},
                  {"name": "VerifC07Concurrent", "quick": {"preemptions": 1}, "thorough": {"preemptions": 2}, "replay": "interpreted", "max-paths": 3000000,
                   "covers": ["done", "election", "isr-change-and-election"],
@@ -163,7 +167,7 @@ CHECKS = {
             {"pkg": "./server/commitlog", "overlay": "commitlog", "pkgname": "commitlog",
              "harnesses": [
                  {"name": "VerifC08WithRetention", "quick": {"msgs": 3}, "thorough": {"msgs": 4}, "max-paths": 1000000,
-                  "covers": ["done", "retention-dropped", "both"], "targets": ["deleteCleaner).Clean", "compactCleaner).Compact", "commitLog).Clean"]},
+                  "covers": ["done", "retention-dropped", "both", "age-limit"], "targets": ["deleteCleaner).Clean", "deleteCleaner).applyAgeLimit", "compactCleaner).Compact", "commitLog).Clean"]},
                  {"name": "VerifC08Compact", "quick": {"msgs": 3, "livereader": 0}, "thorough": {"msgs": 3, "livereader": 1},
                   "covers": ["done", "multi-segment", "append-during-compaction"], "max-paths": 1000000,
                   "targets": ["compactCleaner).cleanSegment", "compactCleaner).scanSegments", "ReverseReader).ReadMessage"]},
@@ -322,6 +326,9 @@ CHECKS = {
         "groups": [
             {"pkg": "./server", "overlay": "server", "pkgname": "server",
              "harnesses": [
+                 {"name": "VerifC15Reload", "quick": {"steps": 4}, "thorough": {"steps": 6}, "replay": "interpreted", "max-paths": 3000000,
+                  "covers": ["done", "revoked-in-file", "corrupt-file", "reloaded", "reload-failed", "call"],
+                  "targets": ["Server).handleSignals", "apiServer).enforcePolicy", "apiServer).ensureAuthorizationPermission"]},
                  {"name": "VerifC15Authz", "quick": {"methods": 17}, "thorough": {"methods": 17}, "replay": "interpreted", "max-violations": 40,
                   "covers": ["done", "allowed", "denied", "denied-after-reload"],
                   "targets": ["apiServer).ensureAuthorizationPermission", "apiServer).Subscribe", "publishAsyncSession).publishLoop", "apiServer).Publish", "apiServer).CreateStream"]},
